@@ -37,9 +37,20 @@ pub fn check(bc: &BuildCase, fam: &str, obs: &mut Obs) -> Result<(), Fail> {
         obs.label("after_foreign_mask_calls");
     }
     let mut built: Vec<Built> = Vec::new();
+    // in one case out of three every pinned-mask build is made on a builder that was first built with ANOTHER mask pinned
+    // (the setter replaces the value, it does not accumulate)
+    let reuse = bc.hash() % 3 == 0;
+    if reuse {
+        obs.label("builder_first_built_with_another_mask");
+    }
     for k in 0..8u8 {
         let mut c = bc.clone();
         c.opts.mask = Some(k);
+        if reuse {
+            let h = bc.hash() >> 3;
+            c.warm = Some(crate::fq::Opts { mode: c.opts.mode, level: c.opts.level, version: c.opts.version, mask: Some((k + 1 + (h % 7) as u8) % 8) });
+            c.resend = (h >> 4) % 2 == 0;
+        }
         match do_build(&c)? {
             Ok(b) => built.push(b),
             Err(e) => {
